@@ -46,4 +46,16 @@ theorem misfit_fails (cfg : Config) (cw : List Bool) (p : List Bool) (hp : cfg.p
   have := (C15.indivisible (false) p cw hne).1 hd
   simp [txBits, hp, this, Res.bind]
 
+/-- 8PSK with a transmitted frame whose length is not a multiple of 3 (for any scalar semantics): the modulator's
+assertion fires — no LLR vector is produced, in particular none that is one or two LLRs short -/
+theorem misfit_psk8_panics {α : Type} (S : Sc α) (cfg : Config) (sigma : α) (cw bits : List Bool) (hp : cfg.psk8 = true)
+    (ht : txBits cfg cw = .ok bits) (h3 : bits.length % 3 ≠ 0) : noiseless S cfg sigma cw = .panic :=
+  Chain.misfit_psk8 S cfg sigma cw bits hp ht h3
+
+/-- an interleaver whose column count does not divide the frame length: the interleaver's assertion fires -/
+theorem misfit_interleaver_panics {α : Type} (S : Sc α) (cfg : Config) (sigma : α) (cw : List Bool) (c : Nat) (bw : Bool)
+    (hn : cfg.pattern = none) (hi : cfg.interleave = some (c, bw)) (hc : c = 0 ∨ cw.length % c ≠ 0) :
+    noiseless S cfg sigma cw = .panic :=
+  Chain.misfit_interleaver S cfg sigma cw c bw hn hi hc
+
 end LdpcV.C12
